@@ -20,6 +20,7 @@ import subprocess
 import time
 
 import common
+import c20_files as ff
 import c20_gen as gen
 import c20_proj as proj
 
@@ -490,6 +491,8 @@ def corpus_cases():
   out = []
   for f in sorted(os.listdir(cdir)) if os.path.isdir(cdir) else []:
     d = json.load(open(os.path.join(cdir, f)))
+    if "ftree" in d:          # a directory-tree case of the file-level correspondence (c20_files.corpus_specs)
+      continue
     out.append(("corpus:" + f, d["py"], d["pyi"]))
   return out
 
@@ -787,7 +790,13 @@ def run(res):
               ". A case is non-trivial when the merge changed the source; distinct by (program, stub) text. "
               "File-level leg: corpus + a long file + sampled generated inputs written LF / CRLF into a scratch "
               "directory and merged in place by merge_files, main -i and merge_tree, with and without backup; the "
-              "file must equal merge_sources' output, the backup the original bytes.")
+              "file must equal merge_sources' output, the backup the original bytes. File-level correspondence: generated "
+              "directory trees (depth <= 4, names with dots and spaces, stubs present / missing / extra / decoys at other levels, "
+              "stub root beside / inside / around / equal to the source root, undecodable and CRLF / CR files, a directory named "
+              "like a stub, backup None / '' / bak / py / pyi with collisions, argument spellings ./x, x/, x//, y/../x, ../cwd/x, "
+              "absolute, '.', '') run through the real merge_tree / merge_files / main in a scratch directory and through the "
+              "model coq/Merge/Files.v (both the pre- and post-b7143da relpath); generated path strings through "
+              "join / normpath / relpath / abspath. A tree case is non-trivial when a file changed or the two variants differ.")
   res.assumptions = [
       "libcst 1.4.0 is modelled (TypeCollector, ApplyTypeAnnotationsVisitor, AddImportsVisitor), not verified: bound to the "
       "model only by this correspondence",
@@ -838,6 +847,9 @@ def run(res):
     done = pool.map(_work, inputs, chunksize=8)
     file_done = pool.map(_file_work, file_jobs, chunksize=4)
     tree_done = pool.map(_tree_work, tree_jobs, chunksize=1)
+    # file-level correspondence: the model of merge_tree / merge_files / the path functions (coq/Merge/Files.v) against the
+    # real code in real scratch directories; decides whether the tree follows merge_tree before or after b7143da
+    ff.run_leg(res, list(TREE_FIXED) + base[:len(corpus_cases())] + gen_inputs, pool, thorough, oracle)
   for d in done:
     if d.get("inferred"):
       n_inferred += 1
@@ -980,6 +992,8 @@ def common_coqchk(pid):
 def replay(res, path):
   common.bootstrap_pytype()
   d = json.load(open(path))["replay"]
+  if "ftree" in d:
+    return ff.replay_ftree(d, oracle)
   if "file" in d:
     fm = d["file"]
     fs = file_case(d["py"], d["pyi"], fm["newline"], fm["backup"], fm["entry"],
